@@ -183,10 +183,10 @@ inductive SubOutcome where
 
 /-- `subscribe` + `create_source_event_stream`, then the consumer drains the stream -/
 def subscribe (r : SubRequest) : SubOutcome :=
-  if !r.opselOk then .refused "InvalidOperationError" false 0               -- get_operation_with_type
+  if !r.opselOk then .refused "InvalidOperationError" false 0               -- get_operation (no / ambiguous / unknown operation)
   else if r.operation ≠ .subscription then .refused "RuntimeError" false 0  -- "`subscribe` does not support %s operation"
-  else if !r.varsOk then .refused "VariablesCoercionError" false 0          -- coerce_variable_values (of a subscription)
   else if !r.streamRuntime then .refused "RuntimeError" false 0             -- "Runtime of type … doesn't support subscriptions."
+  else if !r.varsOk then .refused "VariablesCoercionError" false 0          -- coerce_variable_values (of a subscription)
   -- create_source_event_stream: fields = executor.collect_fields(root_type, selections)
   else if !r.rootCollectOk then .refused "ExecutionError" false 0           -- except ResolverError: raise ExecutionError
   else if (collectSels r.root []).length ≠ 1 then .refused "ExecutionError" false 0   -- "… must specify only one field."
